@@ -23,7 +23,7 @@ from tools import common, shroudrun
 
 LEVEL = "translation_validation"
 MANIFEST = dict(
-    category="proof",
+    category="translation_validation",
     text="Lean 4 theorems about lexical models of C/C++ and free-form Fortran comment removal (state machines): the checker "
          "commentOnlyDiff accepts exactly the file pairs with equal token structure, accepts every insertion/removal of "
          "complete comment blocks and blank lines at code-state line boundaries and of trailing comments (for all texts, "
@@ -53,6 +53,10 @@ THEOREMS = {
         "Shroud.Lex.block_comment_c",
         "Shroud.Lex.trailing_comment",
         "Shroud.Lex.commentEdit_accepted",
+        "Shroud.Lex.insert_needs_code_state",
+        "Shroud.Lex.trailing_needs_code_state",
+        "Shroud.Lex.stripC_idempotent",
+        "Shroud.Lex.stripF_idempotent",
         "Shroud.Gen.Guards.guarded_statements_comment_only",
         "Shroud.Gen.Guards.option_uses_classified",
         "Shroud.Gen.Guards.comment_lists_clean",
